@@ -81,11 +81,11 @@ def build():
                   ("T-CLOSURE", r"let break_fn = \|(?P<p>\w+): &(?P<t>\w+)\| (?P<body>[^;{}]+);",
                    lambda m: f"let break_fn = |{m.group('p')}: &{m.group('t')}| -> (b__: bool) ensures b__ == ({m.group('body')}) {{ {m.group('body')} }};", None),
                   ],
-        at=[("after_stmt", "NewOrder::new(", 1, "let ghost order_struct__ = new_order;"),
-            ("after_stmt", "serde_json::to_string(&new_order)", 1, """
+        at=[("after_stmt_re", r"let (\w+) = NewOrder::new\(", 1, "let ghost order_struct__ = $1;"),
+            ("after_stmt_re", r"let (\w+) = serde_json::to_string\(&\w+\)\?;", 1, """
         proof {
             // the newOrder payload is the serialisation of exactly the configured identifiers
-            assert(new_order@ == crate::shims::serde_json::ser_spec(order_struct__) && order_struct__.ids@ == cert.identifiers@); //@C01.order_payload_lists_the_configured_identifiers
+            assert($1@ == crate::shims::serde_json::ser_spec(order_struct__) && order_struct__.ids@ == cert.identifiers@); //@C01.order_payload_lists_the_configured_identifiers
         }"""),
             ("after_stmt", "let ips: Vec<String>", 1, """
     proof {
@@ -93,15 +93,15 @@ def build():
         assert(domains@.map_values(|s: String| s@) == values_spec(cert.identifiers@, IdentifierType::Dns)
             && ips@.map_values(|s: String| s@) == values_spec(cert.identifiers@, IdentifierType::Ip)); //@C01.csr_names_are_the_configured_identifiers_by_type
     }"""),
-            ("after_stmt", "let csr = Csr::new(", 1, """
-    let ghost csr0 = csr;
+            ("after_stmt_re", r"let (\w+) = Csr::new\(", 1, """
+    let ghost csr0 = $1;
     proof {
         // the CSR is for the key pair just obtained, which is the key in the key file
         assert(csr0.key@ == key_pair.id@ && w.disk_key == Some(key_pair.id@)); //@C01.csr_key_is_the_key_in_the_key_file,C02.key_file_holds_the_key_of_the_csr,C03.key_file_holds_the_key_of_the_csr
         assert(csr0.dns@ == values_spec(cert.identifiers@, IdentifierType::Dns) && csr0.ip@ == values_spec(cert.identifiers@, IdentifierType::Ip)); //@C01.csr_san_is_the_configured_identifiers
     }"""),
-            ("after_stmt", "let csr = csr.to_string();", 1, """
-    proof { assert(csr@ == csr_json(csr_b64(csr0))); } //@C01.finalize_payload_is_the_csr"""),
+            ("after_stmt_re", r"let (\w+) = \w+\.to_string\(\);", 1, """
+    proof { assert($1@ == crate::shims::csr_json(crate::shims::csr_b64(csr0))); } //@C01.finalize_payload_is_the_csr"""),
             ("before_stmt_re", r"let (?:mut )?\w+ = cert\s*\.call_challenge_hooks\(", 1, """
                 proof {
                     // only a challenge of the type configured for this identifier is acted on
